@@ -1,0 +1,7 @@
+//go:build !verif
+
+package verifhook
+
+// PointN marks a named point of a code path that carries an integer argument
+// (an index, a count). No-op without the verif tag.
+func PointN(string, int) {}
